@@ -84,10 +84,10 @@ def c07(ctx):
     rnd = random.Random(ctx.seed)
     recs = r.records
     rnd.shuffle(recs)
-    quota = {"checkmate": 12, "stalemate": 12, "single-legal-move": 12, "check": 20, "ordinary": 30} if quick else {"checkmate": 60, "stalemate": 60, "single-legal-move": 60, "check": 100, "ordinary": 400}
+    quota = {"checkmate": 12, "stalemate": 12, "forced-line": 8, "single-legal-move": 10, "check": 20, "ordinary": 30} if quick else {"checkmate": 60, "stalemate": 60, "forced-line": 40, "single-legal-move": 60, "check": 100, "ordinary": 400}
     for rec in recs:
         tags = set(rec["tags"])
-        cls = "checkmate" if "checkmate" in tags else "stalemate" if "stalemate" in tags else "single-legal-move" if "single-legal-move" in tags else "check" if "check" in tags else "ordinary"
+        cls = "checkmate" if "checkmate" in tags else "stalemate" if "stalemate" in tags else "forced-line" if "forced-line" in tags else "single-legal-move" if "single-legal-move" in tags else "check" if "check" in tags else "ordinary"
         if counts.get(cls, 0) >= quota[cls] or not rec["ok"]:
             continue
         k = tuple(rec["k"])
@@ -96,12 +96,35 @@ def c07(ctx):
         seen.add(k)
         counts[cls] = counts.get(cls, 0) + 1
         chosen.append(fenlib.from_poskey(rec["k"]))
-    for need in ("checkmate", "stalemate", "single-legal-move", "check"):
+    for need in ("checkmate", "stalemate", "single-legal-move", "forced-line", "check"):
         if counts.get(need, 0) == 0:
             raise ToolError("vacuity guard: no %s position among the search roots" % need)
     pp = write_ndjson(ctx.path("roots.ndjson"), chosen)
     out = ctx.path("search_basic.ndjson")
-    summ = harness(["search-basic", pp, out, "--depths", "0,1,2,3" if quick else "0,1,2,3,4", "--pools", "1,2,4,16", "--max-men-deep", 6 if quick else 12], timeout=7200)
+    # a search that takes the whole process down (stack overflow, abort) cannot be caught inside the
+    # harness: the driver reports the case the harness had announced and goes on behind it
+    from common import HarnessCrash
+    skip, crashes, summ = 0, 0, None
+    traces = []
+    while summ is None:
+        try:
+            part = ctx.path("search_basic_%d.ndjson" % skip)
+            summ = harness(["search-basic", pp, part, "--depths", "0,1,2,3" if quick else "0,1,2,3,4", "--pools", "1,2,4,16",
+                            "--max-men-deep", 6 if quick else 12, "--skip", skip, "--trace-log"], timeout=7200)
+            traces.append(part)
+        except HarnessCrash as e:
+            crashes += 1
+            ctx.violation("the search took the whole process down (signal %d)" % e.signal,
+                          {"binding": "harness process killed while searching", "fen": e.marker["fen"], "depth": e.marker["depth"], "threads": e.marker["threads"],
+                           "half_move_clock": e.marker.get("hm"), "stderr": e.stderr}, sig={"ev": "Search", "kind": "abort"})
+            skip = e.marker["index"] + 1
+            if crashes >= 5:
+                summ = {"events": 0, "histories": 0, "searches": 0}
+    # validate whatever was recorded before / between crashes: only the last, complete file is used
+    out = traces[-1] if traces else None
+    if out is None:
+        ctx.extra["root_classes"] = counts
+        return
     rr = tlc.run("Trace_Engine", "Trace_Engine.cfg", env={"TRACE": out}, workers=1, want_records=True, stack="64m", heap="1500m", young="300m", timeout=3600)
     if rr.violated:
         raise ToolError("Trace_Engine model invariant failed: %s" % rr.violated)
@@ -285,11 +308,26 @@ def c09(ctx):
     def one(i):
         out = ctx.path("sched_%d.ndjson" % i)
         summ = harness(["search-sched", out, "--seed", ctx.seed * 100 + i, "--positions", 4 if quick else 12, "--schedules", 9 if quick else 27,
-                        "--depth", 3 + (i % 2), "--max-extra", 4 if i % 2 == 0 else 3, "--log-schedules", 3 if quick else 9], timeout=14000)
+                        "--depth", 3 + (i % 2), "--max-extra", 4 if i % 2 == 0 else 3, "--log-schedules", 3 if quick else 9]
+                       # on some shards the code's log statements are live (as with RUST_LOG=trace): their arguments are evaluated
+                       + (["--trace-log"] if i % 3 == 1 else []), timeout=14000)
         return i, out, summ
 
     # the scheduler runs use a 64-thread pool each: run the shards one after the other
     results = [one(i) for i in range(shards)]
+    # native stress: richer positions, real pools of 1/4/16/48 threads, the code's log statements live
+    # (their arguments are evaluated, as with RUST_LOG=trace); every run must give the 1-thread answer
+    NATIVE = [{"fen": "r1bq1rk1/pp2bppp/2n1pn2/2pp4/3P1B2/2PBPN2/PP1N1PPP/R2QK2R w KQ -", "depth": 3},
+              {"fen": "6k1/5ppp/8/8/8/8/8/R3R1K1 w - -", "depth": 4},
+              {"fen": "r4rk1/1pp1qppp/p1np1n2/2b1p1B1/2B1P1b1/P1NP1N2/1PP1QPPP/R4RK1 w - -", "depth": 2 if quick else 3},
+              {"fen": "8/2p5/3p4/KP5r/1R3p1k/8/4P1P1/8 w - -", "depth": 4},
+              {"fen": "3r2k1/5ppp/8/8/8/8/5PPP/3RR1K1 b - -", "depth": 4}]
+    np_ = ctx.path("native_cases.json")
+    with open(np_, "w") as f:
+        json.dump(NATIVE, f)
+    nout = ctx.path("native.ndjson")
+    nsumm = harness(["search-native", np_, nout, "--pools", "1,4,16,48", "--reps", 2 if quick else 6, "--watchdog-secs", 90, "--trace-log"], timeout=7200)
+    results.append((99, nout, nsumm))
     diverged = 0
     positions = 0
     for i, out, summ in results:
@@ -324,7 +362,7 @@ def c09(ctx):
         return n, runs, r
 
     with ThreadPoolExecutor(max_workers=shards) as ex:
-        vals = list(ex.map(val, results))
+        vals = list(ex.map(val, [r for r in results if r[0] != 99]))
     diags = {}
     for n, runs, r in vals:
         if r.postcondition_failed or r.distinct != n + 1:
